@@ -45,6 +45,18 @@ Fixpoint veqb (a b : value) : bool :=
   | _, _ => false
   end.
 
+(* `!=` is PartialEq::ne - user code, which need not be the negation of eq: the harness struct S overrides it (it looks at the
+   first field only), every other type of the universe has the default `!(a == b)` *)
+Definition vneb (a b : value) : bool :=
+  match a, b with
+  | VCtor c (x :: _ :: []), VCtor d (y :: _ :: []) =>
+    if (String.eqb c "S" && String.eqb d "S")%bool then negb (veqb x y) else negb (veqb a b)
+  | _, _ => negb (veqb a b)
+  end.
+
+(* what eq!(o) / ne!(o) compare: `value == operand` / `value != operand` *)
+Definition vcmp (ne : bool) (a b : value) : bool := if ne then vneb a b else veqb a b.
+
 Inductive pat :=
 | PWild
 | PBind (x : string)
